@@ -59,8 +59,12 @@ CLAIMS = {
     "C11": ("Real parallelism: Rendezvous.tla (liveness: with W >= Width every rendezvous system gets inside run and the stage terminates, all Width systems "
             "inside run together; negative control W < Width must stall) for each width; on the real code stages of rendezvous systems of widths 2..16 "
             "with user pools, dispatch_par, the default pool, inside a batch, through the async dispatcher and called from a foreign pool, several "
-            "running-time hint sets, repeated dispatches: every run is validated as a behaviour of Rendezvous by TLC; a stall counts only if reproduced.",
-            "TLC liveness checking of Rendezvous.tla + real rendezvous runs validated by RendezvousTrace (InvC11)", "DESIGN.md §5 C11"),
+            "running-time hint sets, repeated dispatches: every run is validated as a behaviour of Rendezvous by TLC; a stall counts only if reproduced "
+            "(a dispatch that never returns ends the attempt through a watchdog). Pool.tla: which pool a dispatcher / a batch gets (the handle shared by "
+            "builder, dispatcher and batches): exhaustive call sequences new / add_pool / add_batch / build, every one replayed on real builders whose "
+            "probe systems report the pool they ran on, traces validated by PoolTrace.",
+            "TLC liveness checking of Rendezvous.tla + real rendezvous runs validated by RendezvousTrace (InvC11); TLC model checking of Pool.tla + "
+            "spec->impl replay + PoolTrace (InvC11pool)", "DESIGN.md §5 C11, §12.1"),
     "C12": ("Thread-local systems: position in the list at registration; at run time thread = the caller's, after all other systems, one at a time in "
             "registration order (TLC on recorded dispatches incl. dispatch_thread_local and mixed call sequences); Exec.tla with thread-local systems. "
             "KF1 is reported as KNOWN-FINDING.",
